@@ -153,6 +153,9 @@ func Anchors(w *World) *SimAnchors {
 		if fn.Pkg != w.SLib {
 			continue
 		}
+		if !allocsType(fn, a.SimT) {
+			continue
+		}
 		paths, err := w.Paths(fn)
 		if err != nil {
 			continue
@@ -160,7 +163,7 @@ func Anchors(w *World) *SimAnchors {
 		found := false
 		for _, p := range paths {
 			for _, e := range p.Events {
-				if e.Kind != "store" || e.LV.Op != "sel" || e.LV.A[0].Op != "new" {
+				if e.Kind != "store" || e.LV.Op != "sel" || e.LV.A[0].Op != "new" || e.Instr.Parent() != fn {
 					continue
 				}
 				if pt, ok := e.LV.A[0].Ty.(*types.Pointer); !ok || !types.Identical(pt.Elem(), a.SimT) {
@@ -279,7 +282,13 @@ func Anchors(w *World) *SimAnchors {
 		for _, in := range b.Instrs {
 			if c, ok := in.(ssa.CallInstruction); ok {
 				if f := c.Common().StaticCallee(); f != nil && f != a.ReadFold && f != a.WriteFold && f != a.ReportFn && f.Signature.Recv() != nil {
-					if rt, ok := f.Signature.Recv().Type().(*types.Pointer); ok && types.Identical(rt.Elem(), a.SimT) && !seen[f] {
+					takesInstr := false
+					for _, prm := range f.Params {
+						if typeName(prm.Type()) == "Instruction" {
+							takesInstr = true // an opcode helper is handed the instruction register
+						}
+					}
+					if rt, ok := f.Signature.Recv().Type().(*types.Pointer); ok && types.Identical(rt.Elem(), a.SimT) && !seen[f] && takesInstr {
 						seen[f] = true
 						a.Helpers = append(a.Helpers, f)
 					}
@@ -338,4 +347,33 @@ func calleeOfMethod(w *World, typ, name string) *ssa.Function {
 		}
 	}
 	return f
+}
+
+// allocsType: fn (or a helper it calls directly) allocates a value of type t.
+func allocsType(fn *ssa.Function, t types.Type) bool {
+	has := func(f *ssa.Function) bool {
+		for _, b := range f.Blocks {
+			for _, in := range b.Instrs {
+				if al, ok := in.(*ssa.Alloc); ok {
+					if pt, ok := al.Type().(*types.Pointer); ok && types.Identical(pt.Elem(), t) {
+						return true
+					}
+				}
+			}
+		}
+		return false
+	}
+	if has(fn) {
+		return true
+	}
+	for _, b := range fn.Blocks {
+		for _, in := range b.Instrs {
+			if c, ok := in.(*ssa.Call); ok {
+				if cal := c.Call.StaticCallee(); cal != nil && cal.Pkg == fn.Pkg && has(cal) {
+					return true
+				}
+			}
+		}
+	}
+	return false
 }
